@@ -33,6 +33,9 @@ impl AstExpr {
     // R19: the node construction `AstExpr::BinaryOp(Arc::new(BinaryOpExpr { lhs, op, rhs, allows_slash: false, span }))`
     #[verifier::external_body]
     pub fn binary_op_node(lhs: AstExpr, op: BinaryOp, rhs: AstExpr, span: Span) -> AstExpr { unimplemented!() }
+    // R19: `AstExpr::List(ListExpr { elems, separator: ListSeparator::Space, brackets: Brackets::None })`
+    #[verifier::external_body]
+    pub fn space_list_node(elems: Vec<Spanned<AstExpr>>) -> AstExpr { unimplemented!() }
     #[verifier::external_body]
     pub fn span(self, span: Span) -> Spanned<AstExpr> { unimplemented!() }
 }
@@ -46,4 +49,9 @@ impl P {
     pub fn flags(&self) -> &ContextFlags { unimplemented!() }
     #[verifier::external_body]
     pub fn is_plain_css(&self) -> bool { unimplemented!() }
+    // R27: `flags_mut().set(FLAG, v)` as one method that leaves the lexer untouched
+    #[verifier::external_body]
+    pub fn flags_set_in_parens(&mut self, v: bool)
+        ensures final(self).toks == old(self).toks
+    { unimplemented!() }
 }
